@@ -125,5 +125,5 @@ func VC13_Flush_Sigmoid() {
 	vc13(tNetCfg{nIn: 1, nBias: 0, nHid: 1, nOut: 1, recurrent: true, atype: neatmath.SigmoidSteepenedActivation}, 2, 1)
 }
 func VC13_Flush_Thorough() {
-	vc13(tNetCfg{nIn: 1, nBias: 1, nHid: 2, nOut: 1, recurrent: true, atype: neatmath.LinearActivation, concreteW: true}, 2, 2)
+	vc13(tNetCfg{nIn: 1, nBias: 0, nHid: 2, nOut: 1, recurrent: true, atype: neatmath.LinearActivation, concreteW: true}, 1, 2)
 }
